@@ -43,8 +43,8 @@ fn target_n_trees_contract() {
     let bits: u64 = kani::any();
     let items = RoaringBitmap { bits };
     let nroots: usize = kani::any();
-    kani::assume(nroots <= 3);
-    let roots = [0u32, 1, 2];
+    kani::assume(nroots <= 16);
+    let roots = [0u32, 1, 2, 3, 4, 5, 6, 7, 8, 9, 10, 11, 12, 13, 14, 15];
     let t = target_n_trees(&opt, dim, &items, &roots[..nroots]);
     match n {
         Some(n) => assert!(t == n as u64),
@@ -57,6 +57,7 @@ fn target_n_trees_contract() {
     }
     kani::cover!(n.is_none() && dim == 1 && items.len() == 5);
     kani::cover!(n.is_none() && dim == 2 && items.len() == 5 && nroots == 3);
+    kani::cover!(n == Some(6) && nroots == 7);
     core::mem::forget(opt);
 }
 
